@@ -55,11 +55,10 @@ impl OPT { pub fn new(options: Vec<(EdnsCode, EdnsOption)>) -> OPT { OPT { optio
 //%sub1 "&collected as &[u8]" => "collected.as_slice()" # R-shim: &Vec<u8> as &[u8]
 //%attr #[verifier::loop_isolation(false)]
 //%contract
-    requires old(decoder).wf(), old(decoder).buf().len() <= 65535
+    requires old(decoder).wf()
     ensures final(decoder).wf(), final(decoder).buf() == old(decoder).buf(), final(decoder).idx() >= old(decoder).idx(),
 //%after "while !decoder.is_empty()"
             invariant decoder.wf(), decoder.buf() == old(decoder).buf(), decoder.idx() >= old(decoder).idx(),
-                rdata_length <= 65535,
                 state matches OptReadState::Data { code, length, collected } ==> collected@.len() < length <= rdata_length,
             decreases decoder.buf().len() - decoder.idx()
 //%closure "|u|"@1
@@ -76,13 +75,17 @@ pub fn vp_empty_slice() -> (r: &'static [u8]) ensures r@.len() == 0 { &[] }
 #[derive(Clone, Copy)] pub struct SvcParamKeyRaw(pub u16);
 #[derive(Clone, Copy)] pub enum SvcParamKey { Mandatory, Alpn, NoDefaultAlpn, Port, Ipv4Hint, EchConfigList, Ipv6Hint, Key(u16), Key65535, Unknown(u16) }
 impl SvcParamKey {
-    #[verifier::external_body] pub fn from_u16(v: u16) -> SvcParamKey { unimplemented!() }
-    // svcb.rs: `Ok(decoder.read_u16()?.unverified().into())`
-    pub fn read(decoder: &mut BinDecoder<'_>) -> (r: Result<SvcParamKey, DecodeError>)
+    // svcb.rs `impl From<u16> for SvcParamKey`: exhaustive match (ASSUMED total)
+    #[verifier::external_body] pub fn vp_from_u16(v: u16) -> SvcParamKey { unimplemented!() }
+//%fn crates/proto/src/rr/rdata/svcb.rs :: impl<'r> BinDecodable<'r> for SvcParamKey :: read
+//%novis
+//%sub1 "fn read(" => "pub fn read<'r>(" # R-vis: trait-impl method placed in an inherent impl (the impl's lifetime parameter moves to the fn)
+//%sub1 "Ok(decoder.read_u16()?.unverified().into())" => "Ok(SvcParamKey::vp_from_u16(decoder.read_u16()?.unverified()))" # R-shim: Into::into -> the From<u16> impl it resolves to
+//%contract
         requires old(decoder).wf()
         ensures final(decoder).wf(), final(decoder).buf() == old(decoder).buf(),
             match r { Ok(_) => final(decoder).idx() == old(decoder).idx() + 2, Err(_) => final(decoder).idx() == old(decoder).idx() }
-    { match decoder.read_u16() { Ok(v) => Ok(SvcParamKey::from_u16(v.unverified())), Err(e) => Err(e) } }
+//%end
     // ordering of keys (derived PartialOrd in the source): only its totality matters here
     #[verifier::external_body] pub fn vp_ge(&self, o: &SvcParamKey) -> bool { unimplemented!() }
 }
